@@ -81,6 +81,9 @@ OBLIGATIONS += [namelen(256, ["quick", "thorough"]), namelen(257, ["quick", "tho
 OBLIGATIONS.append(dict(name="tree_node_values_fit_or_refused", harness="harness/C01_mknode.c", sources=["lib/util/src/canonicalize_name.c"], included_sources=["lib/fstree/src/fstree.c"],
     unwind=6, tiers=["quick", "thorough"], timeout=300, reach=["created", "refused"], functions=["mknode, insert_sorted (lib/fstree/src/fstree.c)"],
     bound="one entry (file, directory, character/block device, fifo) with symbolic 64 bit uid, gid, device number and time stamp"))
+OBLIGATIONS.append(dict(name="xattr_scan_keeps_every_attribute", harness="harness/C01_xattrscan.c", sources=[], included_sources=["bin/gensquashfs/src/apply_xattr.c"],
+    incdirs=["bin/gensquashfs/src"], defines=dict(NK=2), unwind=8, leak=True, tiers=["quick", "thorough"], timeout=300, reach=["scanned", "failed"],
+    functions=["xattr_from_path (bin/gensquashfs/src/apply_xattr.c)"], bound="a file with 2 attributes, value lengths 0..2 and value bytes symbolic, llistxattr/lgetxattr/the writer may fail"))
 OBLIGATIONS.append(dict(name="packfile_keywords", harness="harness/C01_packfile.c",
     sources=["lib/util/src/parse_int.c", "lib/util/src/canonicalize_name.c", "lib/util/src/split_line.c", "lib/util/src/alloc.c"], stubs=["stubs/vp_ctype.c", "stubs/vp_sysmacros.c"],
     included_sources=["bin/gensquashfs/src/fstree_from_file.c"], incdirs=["bin/gensquashfs/src"], unwind=12, tiers=["quick", "thorough"], timeout=300, reach=["done"],
